@@ -58,7 +58,12 @@ def main():
             meta['steps']['tests_with_change'] = '100% tests passed' in t.stdout
             meta['steps']['tests_tail'] = t.stdout[-300:]
             meta['steps']['demo_changed'] = run_demo('changed')
-            c = sh('cd %s && VERIF_REPO=%s python3 tools/check.py %s --tier %s' % (VERIF, wt, pid, tier), timeout=7200)
+            # the check runs from a PRIVATE copy of /verif (own lean project, generated files and evidence), so several
+            # confirmations can run side by side and nothing in /verif is rewritten from a modified tree
+            priv = '/tmp/seedvf_%s' % name
+            sh('rm -rf %s && rsync -a --exclude .git --exclude replays %s/ %s/' % (priv, VERIF, priv))
+            c = sh('cd %s && VERIF_REPO=%s python3 tools/check.py %s --tier %s' % (priv, wt, pid, tier), timeout=7200)
+            sh('rm -rf %s' % priv)
             lines = [l for l in c.stdout.split('\n') if l.startswith('[%s]' % pid) or 'VIOLATION' in l or 'failing input' in l or 'broken obligation' in l]
             meta['steps']['check'] = {'rc': c.returncode, 'tier': tier, 'violation_line': next((l for l in c.stdout.split('\n') if l.startswith('VIOLATION')), None),
                                       'log': [l[:300] for l in lines][:14]}
@@ -68,8 +73,7 @@ def main():
         meta['detected'] = bool(meta['steps'].get('check', {}).get('violation_line'))
     finally:
         sh('git -C /repo worktree remove --force %s' % wt)
-        # the check regenerated lean/RomeaModel/Generated/* from the modified worktree: restore the committed files
-        sh('git -C %s checkout -- lean/RomeaModel/Generated evidence/%s.json' % (VERIF, pid))
+        sh('rm -rf /tmp/seedvf_%s' % name)
     out = os.path.join(VERIF, 'seeded', name)
     os.makedirs(out, exist_ok=True)
     for f in ('patch.diff', 'demo.cpp', 'demo.sh', 'notes.txt'):
